@@ -101,7 +101,16 @@ def _truth_lemmas(m, K):
         mp, mq, ma = S.reals("mp", m), S.reals("mq", m), S.reals("ma", m)
         pos = z3.And(eps >= 0, *[a > 0 for a in al])
         gap = lambda i, j: mij_spec(W, al, i, j)
-        t.prove("mono_gap:dominating_a_design_cannot_lower_the_gap_bound", z3.Implies(z3.And(pos, S.dom(W, ma, mq), gap(mp, ma) <= eps), gap(mp, mq) <= eps), use_pre=False)
+        # mono_gap: dominating a design cannot lower the gap bound.  Per facet (a): W_k.(mq - mp) <= W_k.(ma - mp) when ma dominates mq,
+        # hence the clipped, alpha-scaled terms are ordered; (b) the minimum of ordered terms is ordered (abstract reals).
+        clip = lambda v: z3.If(v < 0, z3.RealVal(0), v)
+        for k in range(K):
+            t.prove("mono_gap/a:facet_%d_term_is_monotone" % k,
+                    z3.Implies(z3.And(pos, S.dot(W[k], S.vsub(ma, mq)) >= 0),
+                               clip(S.dot(W[k], S.vsub(mq, mp))) / al[k] <= clip(S.dot(W[k], S.vsub(ma, mp))) / al[k]), use_pre=False)
+        xs, ys = S.reals("x", K), S.reals("y", K)
+        zmin = lambda v: __import__("functools").reduce(lambda a, b: z3.If(b < a, b, a), v)
+        t.prove("mono_gap/b:minimum_of_termwise_smaller_values_is_smaller", z3.Implies(z3.And(*[x <= y for x, y in zip(xs, ys)], zmin(ys) <= eps), zmin(xs) <= eps), use_pre=False)
         t.prove("self_gap_is_zero", z3.Implies(pos, gap(mp, mp) <= eps), use_pre=False)
         # ellipsoids: not coverable with per-facet slack alpha_k eps, truths inside => some facet has W_k (mu_q - mu_p) < alpha_k eps => gap <= eps
         some_facet = z3.Or(*[S.dot(W[k], S.vsub(mq, mp)) < al[k] * eps for k in range(K)])
